@@ -221,6 +221,8 @@ func (m *mParams) docTree(style int) map[string]any {
 // notation: decoding a document carrying one in a numeric position must fail.
 var malformedNumbers = []string{
 	"", "0x", "zz", " 1", "1 ", "1.5", "1e3", "0xg", "0x 1", "one", "0x1.8", "12a", "\t7", "0x1g", "NaN", "1,2", "#1", "0x--1", "٣",
+	// a sign AFTER the prefix (an explicit-base parser takes it), a lone sign, two prefixes, a prefix without digits
+	"0x-1", "0x+1", "0X-ff", "0x+0", "0x-", "+", "-", "0x0x1", "0b", "0o", "0x+ff", "1-", "--1", "+-1", "0x1-",
 }
 
 // genBigByLen draws a non-negative integer by byte length first (0..maxLen),
